@@ -103,3 +103,91 @@ Check C18_reset_other_write_mode_rejected.
 Print Assumptions C18_reset_other_write_mode_rejected.
 Check C18_reset_rejected_keeps_file.
 Print Assumptions C18_reset_rejected_keeps_file.
+
+(* ------------------------------------------------------------------ with rotation (Numbers naming); proofs in Flw/ReopenRot.v *)
+Require Import FL.Base.Bytes FL.Fs.Fs FL.Names.FileSpec FL.Flw.Model FL.Flw.NumInv FL.Flw.Run FL.Flw.NumRun FL.Flw.NumTheorems
+  FL.Oracles.O_Flw FL.Flw.ForeignModel FL.Flw.ReopenRot.
+Local Open Scope nat_scope.
+
+(* somebody renames the current file to a name outside the family, then reopen_outputfile(): the call succeeds; the renamed
+   file holds exactly what was written since the last rotation (buffered tail included), the closed files are untouched,
+   the files written afterwards continue the numbering; nothing is lost or duplicated *)
+Theorem C18_reopen_numbers c crit t0 off ops1 ops2 moved :
+  numcfg c crit -> Forall basic_op ops1 -> Forall basic_op ops2 -> fresh_name c moved ->
+  let r := run (sys0 t0 off) (OStart c :: ops1 ++ [OExtRename (cname c) moved; OReopen] ++ ops2 ++ [OStop]) in
+  let f := wfs (s_w (fst r)) in
+  nth_error (snd r) (S (S (length ops1))) = Some (ObsRes 0 false)
+  /\ if wrote ops1 then
+       exists closed1 cur1 closed2 cur2,
+         reads c (wfs (s_w (fst (run (sys0 t0 off) (OStart c :: ops1 ++ [OStop]))))) (closed1 ++ [cur1])
+         /\ concat closed1 ++ cur1 = written ops1
+         /\ dir_holds f (numbered c 0 (closed1 ++ closed2) ++ [(cname c, cur2); (moved, cur1)])
+         /\ concat closed2 ++ cur2 = written ops2
+         /\ concat (closed1 ++ [cur1] ++ closed2 ++ [cur2]) = written (ops1 ++ ops2)
+     else exists files, reads c f files /\ concat files = written ops2.
+Proof. exact (reopen_numbers c crit t0 off ops1 ops2 moved). Qed.
+
+(* size criterion: the size count survives the reopen (the partition of ops2 is not started afresh) *)
+Theorem C18_reopen_numbers_partition c m t0 off ops1 ops2 moved :
+  numcfg c (CSize m) -> Forall basic_op ops1 -> Forall basic_op ops2 -> fresh_name c moved -> wrote ops1 = true ->
+  let r := run (sys0 t0 off) (OStart c :: ops1 ++ [OExtRename (cname c) moved; OReopen] ++ ops2 ++ [OStop]) in
+  exists closed1 cur1 h tl closed2 cur2,
+    expected_files m None (items false ops1) = closed1 ++ [cur1]
+    /\ partition m [] cur1 (items true ops2) = (cur1 ++ h) :: tl
+    /\ h :: tl = closed2 ++ [cur2]
+    /\ dir_holds (wfs (s_w (fst r))) (numbered c 0 (closed1 ++ closed2) ++ [(cname c, cur2); (moved, cur1)]).
+Proof. exact (reopen_numbers_partition c m t0 off ops1 ops2 moved). Qed.
+
+Theorem C18_reopen_numbers_at_once c crit t0 off ops1 moved :
+  numcfg c crit -> Forall basic_op ops1 -> fresh_name c moved -> wrote ops1 = true ->
+  let f := wfs (s_w (fst (run (sys0 t0 off) (OStart c :: ops1 ++ [OExtRename (cname c) moved; OReopen])))) in
+  exists closed1 cur1,
+    concat closed1 ++ cur1 = written ops1
+    /\ dir_holds f (numbered c 0 closed1 ++ [(cname c, []); (moved, cur1)]).
+Proof. exact (reopen_numbers_at_once c crit t0 off ops1 moved). Qed.
+
+(* reopen_outputfile() with the file in place: the current file is continued, not truncated *)
+Theorem C18_reopen_numbers_in_place c crit t0 off ops1 ops2 :
+  numcfg c crit -> Forall basic_op ops1 -> Forall basic_op ops2 ->
+  let r := run (sys0 t0 off) (OStart c :: ops1 ++ [OReopen] ++ ops2 ++ [OStop]) in
+  let f := wfs (s_w (fst r)) in
+  nth_error (snd r) (S (length ops1)) = Some (ObsRes 0 false)
+  /\ exists files1 files,
+       reads c (wfs (s_w (fst (run (sys0 t0 off) (OStart c :: ops1 ++ [OStop]))))) files1
+       /\ concat files1 = written ops1
+       /\ reads c f files /\ concat files = written (ops1 ++ ops2)
+       /\ (forall closed1 cur1, files1 = closed1 ++ [cur1] -> exists t rest, files = closed1 ++ (cur1 ++ t) :: rest)
+       /\ (forall m, crit = CSize m -> files = expected_files m None (items false (ops1 ++ ops2))).
+Proof. exact (reopen_numbers_in_place c crit t0 off ops1 ops2). Qed.
+
+(* reset(builder) to another Numbers family in the same write mode *)
+Theorem C18_reset_numbers c crit c2 crit2 t0 off ops1 ops2 :
+  numcfg c crit -> numcfg c2 crit2 -> c_cap c2 = c_cap c -> foreign_family c c2 ->
+  Forall basic_op ops1 -> Forall basic_op ops2 ->
+  let r := run (sys0 t0 off) (OStart c :: ops1 ++ [OReset c2] ++ ops2 ++ [OStop]) in
+  nth_error (snd r) (S (length ops1)) = Some (ObsRes 0 false)
+  /\ exists files1 files2,
+       reads c (wfs (s_w (fst (run (sys0 t0 off) (OStart c :: ops1 ++ [OStop]))))) files1
+       /\ concat files1 = written ops1
+       /\ concat files2 = written ops2
+       /\ (forall m, crit = CSize m -> files1 = expected_files m None (items false ops1))
+       /\ (forall m2, crit2 = CSize m2 -> files2 = expected_files m2 None (items false ops2))
+       /\ dir_holds (wfs (s_w (fst r))) (fam c files1 ++ fam c2 files2).
+Proof. exact (reset_numbers c crit c2 crit2 t0 off ops1 ops2). Qed.
+
+Theorem C18_foreign_family_prefix c c2 :
+  is_prefix (fixed0 c) (fixed0 c2) = false -> is_prefix (fixed0 c2) (fixed0 c) = false -> foreign_family c c2.
+Proof. exact (foreign_family_prefix c c2). Qed.
+
+Check C18_reopen_numbers.
+Print Assumptions C18_reopen_numbers.
+Check C18_reopen_numbers_partition.
+Print Assumptions C18_reopen_numbers_partition.
+Check C18_reopen_numbers_at_once.
+Print Assumptions C18_reopen_numbers_at_once.
+Check C18_reopen_numbers_in_place.
+Print Assumptions C18_reopen_numbers_in_place.
+Check C18_reset_numbers.
+Print Assumptions C18_reset_numbers.
+Check C18_foreign_family_prefix.
+Print Assumptions C18_foreign_family_prefix.
